@@ -7,6 +7,7 @@ import (
 	"os"
 	"os/exec"
 	"runtime/debug"
+	"runtime/pprof"
 	"sort"
 	"strconv"
 	"strings"
@@ -45,6 +46,13 @@ func main() {
 	list := flag.Bool("list", false, "print the registered properties as JSON")
 	flag.Parse()
 	start := time.Now()
+	debug.SetGCPercent(800) // the whole-program SSA is a large live heap; the analyses allocate many short-lived terms
+	if pf := os.Getenv("BKLCHECK_PROF"); pf != "" {
+		if f, err := os.Create(pf); err == nil {
+			_ = pprof.StartCPUProfile(f)
+			defer pprof.StopCPUProfile()
+		}
+	}
 
 	if *list {
 		type item struct {
@@ -140,6 +148,7 @@ func main() {
 		}
 		code = Finish(results, *prop, *tier, seed, *verif, start, spec, extra)
 	}()
+	pprof.StopCPUProfile()
 	os.Exit(code)
 }
 
